@@ -28,3 +28,12 @@ CHECKS["C12"] = _c(
     "Trusted: the harness's percent-encoder and bucket-name predicates (core rules = length/charset/edge characters; complete rules exclude every documented special form and grey areas such as '.-'). Names between the two rule sets, foreign-domain hosts and port/case variants of the configured domain get no verdict.",
     "DESIGN.md 3/C12",
 )
+
+CHECKS["C13"] = _c(
+    "exploration",
+    "runtime monitoring: every XML encoder/decoder pair of the current tree run on generated values, mutated documents and random bytes; oracles: DTO equality, an independent XML reader (xmlparser-based), the DTO structs as schema; panics caught",
+    "harness (direct API driver; type table generated from xml/generated.rs)",
+    "For each of the ~200 types that have an encoder and a decoder: decode(encode(v)) = v and an independent reader recovers the same leaf texts, over values with members absent / present / random and text over the XML alphabet; valid documents are mutated (truncation at every byte, unknown / renamed / duplicated / deleted members, content after the root, wrong root, CDATA / comment / PI / character-reference rewrites, deliberate ill-formedness) and random byte soups are decoded, each with the verdict the statement prescribes (refuse / same value if accepted / no panic). Held on the executions observed.",
+    "Trusted: the reference reader (self-tested at start-up) and xmlparser's tokenizer. A well-formed rewrite may be refused; if accepted it must mean the same. Element<->member mapping is by normalised name; unmapped elements get no verdict. Lexical leniency of the underlying quick-xml reader is recorded as known findings by operator.",
+    "DESIGN.md 3/C13",
+)
